@@ -435,7 +435,7 @@ func runC04(cx *Ctx, r *Report) {
 				if b != nil {
 					usedBank[b.ev] = true
 				}
-				_, g := d.x.fact(false, "math.Int.IsNegative(math.Int.Sub(", ".CurrentSupply")
+				_, g := d.x.fact(false, "math.Int.LT(", ".CurrentSupply")
 				r.check(g, "limit-guard", key, pos, "¬IsNegative(current − amount) dominates the decrement", "Current supply decremented without the non-negativity check")
 			case "IncomingSupply+":
 				_, g := d.x.fact(false, "sdk.Coin.IsLT(coin(", ".Limit), sdk.Coin.Add(sdk.Coin.Add(", ".IncomingSupply")
@@ -449,7 +449,7 @@ func runC04(cx *Ctx, r *Report) {
 				} else {
 					r.ok("double-entry", key, pos, "refund of an incoming transfer: Incoming −= coin with no bank effect (nothing was escrowed)")
 				}
-				_, g := d.x.fact(false, "math.Int.IsNegative(math.Int.Sub(", ".IncomingSupply")
+				_, g := d.x.fact(false, "math.Int.LT(", ".IncomingSupply")
 				r.check(g, "limit-guard", key, pos, "¬IsNegative(incoming − amount) dominates the decrement", "Incoming supply decremented without the non-negativity check")
 			case "OutgoingSupply+":
 				b := findBank(d, "bank.SendCoinsFromAccountToModule")
@@ -471,7 +471,7 @@ func runC04(cx *Ctx, r *Report) {
 				if b != nil {
 					usedBank[b.ev] = true
 				}
-				_, g := d.x.fact(false, "math.Int.IsNegative(math.Int.Sub(", ".OutgoingSupply")
+				_, g := d.x.fact(false, "math.Int.LT(", ".OutgoingSupply")
 				r.check(g, "limit-guard", key, pos, "¬IsNegative(outgoing − amount) dominates the decrement", "Outgoing supply decremented without the non-negativity check")
 			case "TimeElapsed+":
 			default:
